@@ -7,7 +7,7 @@ cd /repo
 git diff --quiet || { echo "/repo not clean"; exit 3; }
 if git apply --check "$src" 2>/dev/null; then cp "$src" "$out"; echo "applies as is"; exit 0; fi
 if patch -p1 -F3 -s --dry-run < "$src" >/dev/null 2>&1; then
-  patch -p1 -F3 -s < "$src"; find . -name '*.orig' -newer "$src" -delete 2>/dev/null; git diff > "$out"; git checkout -- .; echo "applied with fuzz"; exit 0; fi
+  patch -p1 -F3 -s < "$src"; find . -name "*.orig" -not -path "./target/*" -delete 2>/dev/null; find . -name "*.rej" -not -path "./target/*" -delete 2>/dev/null; git diff > "$out"; git checkout -- .; echo "applied with fuzz"; exit 0; fi
 # 3-way merge per file against the pristine base
 base=$(git rev-list --max-parents=0 HEAD)
 tmp=$(mktemp -d /tmp/port.XXXX)
